@@ -186,7 +186,7 @@ CHECKS["C10"] = {
     "rule": "a case = one schedule run 6 times. Non-trivial = at a release point >= 2 request queues are non-empty and one of them is at capacity (10); "
             "distinct = distinct (mode, bucketed occupancy vector)",
     "assumptions": ["remote upgrade master is a stub RoundTripper (ok / error / blocks forever)"],
-    "required_classes": {"all": ["release-with->=2-queues-nonempty-and-one-full", "mode:local", "mode:remote-stalled", "mode:"]},
+    "required_classes": {"all": ["release-with->=2-queues-nonempty-and-one-full", "mode:local", "mode:remote-stalled", "mode:", "hooks:with-unstartable-entries"]},
     "jobs": [
         J("nowedge", AGENT, "TestC10NoWedge", {"shards": 8, "checks": 40}, {"shards": 16, "checks": 1500}, toolchain="go126"),
     ],
@@ -206,9 +206,11 @@ CHECKS["C11"] = {
     "rule": "a case = one generated history run 6 times. Non-trivial = a batch containing a successful login of an upgradeable user concurrent with an update/remove/add/set-admin of the same user; "
             "distinct = distinct (mode, kinds of the concurrent mutations, batch size)",
     "assumptions": ["requests at the Store interface; HTTP/SASL frontends add no shared state beyond it"],
-    "required_classes": {"all": ["batch:login-of-upgradeable-user-concurrent-with-mutation", "mode:local", "mode:"]},
+    "required_classes": {"all": ["batch:login-of-upgradeable-user-concurrent-with-mutation", "mode:local", "mode:", "free-running:local"]},
     "jobs": [
         J("linearizable", AGENT, "TestC11Linearizable", {"shards": 8, "checks": 40}, {"shards": 16, "checks": 1500}, toolchain="go126"),
+        J("freerunning", AGENT, "TestC11FreeRunning", {"shards": 2, "n": 16}, {"shards": 4, "n": 32}, toolchain="go126", rapid=False),
+        J("freerunning-race", AGENT, "TestC11FreeRunning", {"shards": 1, "n": 16}, {"shards": 2, "n": 24}, toolchain="go126", rapid=False, race=True, tiers=("thorough",)),
     ],
 }
 
@@ -353,9 +355,10 @@ CHECKS["C05"] = {
     "rule": "a case = 1..16 connections. Non-trivial = a stream that is not plain encoder output, or delivered in >= 2 writes, or a callback message > 253 bytes, or >= 2 concurrent connections; "
             "distinct = distinct (mutation kind, fragment bucket, end behaviour, outcome class, message-length bucket, concurrency, complete)",
     "assumptions": [],
-    "required_classes": {"all": ["callback-message>253-bytes-delivered", "concurrent-connections", "stream:cut", "stream:lenfield", "end:half-close", "end:wait", "end:close"]},
+    "required_classes": {"all": ["slow-timing-case", "callback-message>253-bytes-delivered", "concurrent-connections", "stream:cut", "stream:lenfield", "end:half-close", "end:wait", "end:close"]},
     "jobs": [
         J("server", VSASL, "TestC05Server", {"shards": 8, "checks": 100}, {"shards": 16, "checks": 6000}),
+        J("slowtiming", VSASL, "TestC05SlowTiming", {"shards": 2, "checks": 1}, {"shards": 16, "checks": 12}),
     ],
 }
 
